@@ -38,9 +38,17 @@ class ImportConverter:
 
             ast_module, module_name = module.module, module.name
 
-            if hasattr(ast_module, "body"):
+            # statements can be nested in any statement list of a compound statement:
+            # body, orelse, finalbody, the bodies of except handlers and of match cases
+            nested_statements = [
+                child
+                for child in ast.iter_child_nodes(ast_module)
+                if isinstance(child, (ast.stmt, ast.ExceptHandler, ast.match_case))
+            ]
+
+            if nested_statements:
                 module_to_search.extend(
-                    [NamedModule(m, module_name) for m in ast_module.body]  # type: ignore
+                    [NamedModule(m, module_name) for m in nested_statements]  # type: ignore
                 )
             else:
                 new_imports = self._convert(
